@@ -233,6 +233,32 @@ func c12Worker(sh *explore.Shard) {
 			}
 		}
 	}
+	// (iii') the entry point the report uses, Humaner.Format(counter, unit): for
+	// every boundary point below a counter's capacity it is FormatNumber of the
+	// same value (only the capacity itself means "overflowed")
+	for si := range systems {
+		ps := &systems[si]
+		idx++
+		if !sh.Mine(idx) || sh.Expired() {
+			continue
+		}
+		for _, n := range c12Points(ps) {
+			wn, wu := ps.h.FormatNumber(n, "B")
+			if n < 1<<64-1 {
+				gn, gu := ps.h.Format(counts.Count64(n), "B")
+				if gn != wn || gu != wu {
+					report(ps, n, fmt.Sprintf("Format(Count64) renders %q %q, FormatNumber %q %q", gn, gu, wn, wu))
+				}
+			}
+			if n < 1<<32-1 {
+				gn, gu := ps.h.Format(counts.Count32(n), "B")
+				if gn != wn || gu != wu {
+					report(ps, n, fmt.Sprintf("Format(Count32) renders %q %q, FormatNumber %q %q", gn, gu, wn, wu))
+				}
+			}
+			sh.C.Evals++
+		}
+	}
 	// (iv) call-order independence: a rendering must not depend on what the same
 	// formatter rendered before. Every ordered pair and every ordered triple of a
 	// boundary alphabet (0, 1, 999, each multiplier -1/+0/+1, x10, x999) on one
@@ -306,6 +332,6 @@ func c12Worker(sh *explore.Shard) {
 
 func init() {
 	Registry["C12"] = &Check{Level: "exploration", Worker: c12Worker, QuickBudget: 40 * time.Second, ThoroughBudget: 5 * time.Minute,
-		Rule:        "both prefix systems: every n in [0,2^20) (quick) / [0,2^26) (thorough); every rounding half-boundary of every prefix and precision band +-3; every prefix multiplier x {1,10,100,999.5,1000,1024} +-3; 2^k +-3 for all k; cap-3..cap. Oracle: exact big-integer arithmetic (prefix choice, half-unit error bound, exactness below the first prefix, >=3 significant digits, <=5 characters, monotone magnitude between adjacent explored values); every ordered pair and (for a fifth of the first elements) every ordered triple of a 4+5 x prefixes boundary alphabet rendered in sequence on one formatter value (call-order independence); auxiliary: 8 goroutines rendering at once (sampling). distinct_nontrivial = values checked (all are distinct inputs)",
+		Rule:        "both prefix systems: every n in [0,2^20) (quick) / [0,2^26) (thorough); every rounding half-boundary of every prefix and precision band +-3; every prefix multiplier x {1,10,100,999.5,1000,1024} +-3; 2^k +-3 for all k; cap-3..cap (2^32 +-3 and 2^64 +-3 included); Humaner.Format(Count32/Count64) agrees with FormatNumber below the capacity. Oracle: exact big-integer arithmetic (prefix choice, half-unit error bound, exactness below the first prefix, >=3 significant digits, <=5 characters, monotone magnitude between adjacent explored values); every ordered pair and (for a fifth of the first elements) every ordered triple of a 4+5 x prefixes boundary alphabet rendered in sequence on one formatter value (call-order independence); auxiliary: 8 goroutines rendering at once (sampling). distinct_nontrivial = values checked (all are distinct inputs)",
 		Assumptions: []string{"values above the dense range that are not near an enumerated boundary are not explored; between two adjacent explored points nothing is claimed about the interior"}}
 }
